@@ -153,6 +153,12 @@ def build_reporting(family, start, days, values_fn, variant="plain"):
     if fam == "caltrack":
         from opendsm.eemeter.models.hourly_caltrack import HourlyReportingData as CR
 
+        if variant == "from_series_mixed_zones":
+            # the two series arrive in different zones (meter export in UTC, weather in local time) through from_series
+            temp = fr["temperature"]
+            if v is None:
+                return CR.from_series(None, temp, is_electricity_data=True)
+            return CR.from_series(fr["observed"].tz_convert("UTC"), temp, is_electricity_data=True)
         return CR(fr, is_electricity_data=True)
     return em.HourlyReportingData(fr, is_electricity_data=True)
 
@@ -233,6 +239,8 @@ def run_case(case):
     family_pred = "hourly" if family in ("hourly_satgap", "hourly_pv") else family
     viol = []
     key0 = {"family": family}
+    if variant == "from_series_mixed_zones":
+        key0["variant"] = variant
     # number of usage values
     if family == "daily" and variant == "hourly_frame":
         n = len(ds.local_hours(start, days, ZONE))
@@ -328,6 +336,8 @@ def cases(tier):
                 out.append({"family": f, "set": sname, "variant": "weather_gaps"})
             if f == "daily" and sname != "year":
                 out.append({"family": f, "set": sname, "variant": "six_am_hourly_feed"})
+            if f == "caltrack" and sname == "week":
+                out.append({"family": f, "set": sname, "variant": "from_series_mixed_zones"})
             if f == "daily" and sname in ("dst_month", "week") or (f == "daily" and sname == "year" and tier == "thorough"):
                 out.append({"family": f, "set": sname, "variant": "hourly_frame"})
     # longest first so the pool is busy
